@@ -103,13 +103,13 @@ def reset_globals():
     E = eng()
     E["cfg"].DECIMAL_WIDTH = E["cfg"].DEFAULT_DECIMAL_WIDTH
     E["cfg"].DECIMAL_SCALE = E["cfg"].DEFAULT_DECIMAL_SCALE
-    E["exc"].dataset_output = None
+    (E["exc"].set_dataset_output(None) if hasattr(E["exc"], "set_dataset_output") else setattr(E["exc"], "dataset_output", None))
 
 
 def globals_now():
     E = eng()
     return {"DECIMAL_WIDTH": E["cfg"].DECIMAL_WIDTH, "DECIMAL_SCALE": E["cfg"].DECIMAL_SCALE,
-            "dataset_output": E["exc"].dataset_output}
+            "dataset_output": (E["exc"].get_dataset_output() if hasattr(E["exc"], "get_dataset_output") else E["exc"].dataset_output)}
 
 
 # ------------------------------------------------------------------------------------------------------ cases
